@@ -23,6 +23,9 @@ CHECKS = {
  "C06": dict(cat="model_checking", tech="TLA+ GlobalLoop model (callback grammar, export reads last LB/UB, termination) + TLC trace validation of placeGlobal callbacks (InArea, Finite, blend, grammar)",
              text="Design level: TLC checks the control flow of the global loop exhaustively for small step counts (grammar, the export uses the last lower and upper bound, termination). Code level (numeric content, exploration over inputs): every UpperBound exposure, every coordinate, the callback grammar and the returned blend of recorded runs are checked by TLC.",
              ref="5/C06", engine="tlc-design; record + tlc-trace"),
+ "C07": dict(cat="exploration", tech="TLA+ outcome alphabet (TraceCircuit has no accepting action for Abort/Sanitizer/Timeout) + TLC-emitted shape x magnitude case table executed in forked children under ASan/UBSan, with and without assertions",
+             text="Exploration over inputs: every case of the TLC-emitted table of degenerate shapes at magnitudes up to 2^22 and seeded random circuits are run through the three stages in forked children (ASan+UBSan with assertions; UBSan with -O2 -DNDEBUG; plain assertion build) under a wall-clock budget; the child's fate is the last trace event and the trace specification refuses anything but Return/Throw. The spec contributes the alphabet and the table, the search is over inputs.",
+             ref="5/C07", engine="record + tlc-trace"),
  "C08": dict(cat="model_checking", tech="TLA+ fork/join model (all interleavings; uninterpreted results; read/write sets) + hook-forced completion orders, run-order histories and ThreadSanitizer runs validated by TLC's memo contract",
              text="Design level: TLC explores every interleaving of the two solver threads with the main thread (results are terms over what was read, so a cross-thread read makes them schedule dependent; the racy variant is rejected). Code level: the hook forces both completion orders of every lower-bound step plus random orders/delays, on one and many cores; job histories in different orders and processes; every pair of executions of the same stage on the same input must agree bitwise (TLC memo); TSan reports are refused events.",
              ref="5/C08", engine="tlc-design; record + tlc-trace"),
